@@ -9,6 +9,7 @@ import (
 	"encoding/xml"
 	"errors"
 	"fmt"
+	"io"
 	"io/ioutil"
 	"strconv"
 	"strings"
@@ -223,13 +224,17 @@ func (c *Conf) InitFromBytes(content []byte) error {
 	nodeStack = append(nodeStack, c.root)
 	for {
 		currNode := nodeStack[len(nodeStack)-1]
-		token, _ := xmlDecoder.Token()
-		if token == nil {
+		token, err := xmlDecoder.Token()
+		if err == io.EOF {
 			break
+		}
+		if err != nil {
+			return fmt.Errorf("parse config error: %v", err)
 		}
 		switch t := token.(type) {
 		case xml.CharData:
 			lineDecoder := bufio.NewScanner(bytes.NewReader(t))
+			lineDecoder.Buffer(nil, len(t)+1) // a line may be as long as the whole block
 			lineDecoder.Split(bufio.ScanLines)
 			for lineDecoder.Scan() {
 				line := strings.Trim(lineDecoder.Text(), whiteSpaceChars)
@@ -250,6 +255,9 @@ func (c *Conf) InitFromBytes(content []byte) error {
 				leaf.setValue(v)
 				currNode.addChild(k, leaf)
 			}
+			if err := lineDecoder.Err(); err != nil {
+				return fmt.Errorf("parse config error: %v", err)
+			}
 		case xml.StartElement:
 			nodeName := t.Name.Local
 			node, ok := currNode.findChild(nodeName)
@@ -265,6 +273,9 @@ func (c *Conf) InitFromBytes(content []byte) error {
 			}
 			nodeStack = nodeStack[:len(nodeStack)-1]
 		}
+	}
+	if len(nodeStack) != 1 {
+		return fmt.Errorf("xml end not found :%s", nodeStack[len(nodeStack)-1].name)
 	}
 	return nil
 }
